@@ -145,6 +145,13 @@ CLAIMED = {
              "parameter/return descriptors and the variadic marker position match the prototype.",
         note="The host C ABI classifies the rebuilt structs as QBE would from the same description (trusted); aarch64/riscv64 get only the structural half; aggregates with bit-fields trip a recorded finding (emittype) whose three signatures are suppressed; "
              "packed/_Alignas-member aggregates by value (C01 findings) are not generated."),
+    "C02": dict(
+        category="exploration", design_ref="DESIGN.md 3/C02",
+        engine="hypothesis+enumeration",
+        technique="differential testing of stage 1 (gcc-built) against stage 2 (cproc's own IL for its sources, translated by il2c and built with gcc) on generated valid programs, catalogue violations, token mutants, the test corpus and cproc's own sources; bootstrap fixed-point comparison",
+        text="Stage 2 is rebuilt from the current tree on every run. Both binaries (same basename, different directories) are run with identical arguments on every input x target x {compile, -E}; stdout, stderr and exit status must be "
+             "byte-identical, and stage 2 must reproduce the stage-1 IL of every source of the compiler.",
+        note="Stage 2 goes through il2c + gcc -O1 rather than QBE + as + ld, so defects of the real backend are out of reach; inputs on which stage 1 crashes are skipped (C19)."),
 }
 
 NOT_YET = "check not built yet in this round (planned per DESIGN.md section 10); no claim is made"
